@@ -111,13 +111,29 @@ def extract(facts, rep):
     b = one(r'^yui_link::link::crossing::Crossing::pass$')
     rep.saw(b)
     T['pass'] = {}
-    for p in SymEx(b).run():
-        if p.end != 'return':
-            continue
-        ct = ctype_of(p)
-        if ct is None:
-            raise ValueError('pass: arm without a crossing type')
-        T['pass'][ct] = [ev(p.ret, {2: i}) for i in range(4)]
+    # by value: pass is folded at every (crossing type, entry index), whatever mixture of match / if / is_resolved() it uses
+    from dtree import DTree, Stuck
+    dt = DTree(facts)
+
+    def type_atom(ct):
+        def atom(t, ev_):
+            if t[0] == 'discr' and 'ctype' in sk(t[1]):
+                return (TYPES.index(ct),)
+            if t[0] == 'call' and t[1].split('::')[-1] in ('eq', 'ne') and len(t[2]) == 2:
+                a_, b_ = strip(t[2][0]), strip(t[2][1])
+                for x, y in ((a_, b_), (b_, a_)):
+                    if sk(x).endswith('ctype') and y[0] == 'adt' and y[2] in TYPES:
+                        r_ = (y[2] == ct)
+                        return (int(r_ if t[1].split('::')[-1] == 'eq' else not r_),)
+            if t[0] == 'field' and t[2] == 'ctype':
+                return ({'<variant>': TYPES.index(ct)},)
+            return None
+        return atom
+    try:
+        for ct in TYPES:
+            T['pass'][ct] = [dt.decide(b.defp, {1: 'SELF', 2: i}, type_atom(ct))[0] for i in range(4)]
+    except Stuck as e_:
+        raise ValueError('pass: %s' % e_)
     # arcs
     b = one(r'^yui_link::link::crossing::Crossing::arcs$')
     rep.saw(b)
